@@ -49,7 +49,7 @@ import (
 const imports = "From XV Require Import lib.Bytes gen.NegTables C02.Model.\n"
 
 // watchdog for one NewSession call; generous, the machine is shared
-const watchdog = 30 * time.Second
+const watchdog = 15 * time.Second
 
 // HsMode: ok (client trusts the certificate), untrusted (explicit config
 // without our root), nilcfg (StartTLS(nil): default config, our root unknown),
